@@ -87,6 +87,40 @@ Fixpoint iterate (salt : list N) (lines : list (list N)) (buffer : list N) (expe
   end.
 Definition split_outputs (salt stream : list N) : option (list (list N * Z)) := iterate salt (split_lines stream) [] 0.
 
+(* finished_testcases: the number of divider lines of this execution in the stream (whatever index they carry; malformed
+   ones are not counted) and the first of them that carries the given exit code *)
+Fixpoint finished_lines (salt : list N) (code : Z) (lines : list (list N)) (n : N) (first : option N) : N * option N :=
+  match lines with
+  | [] => (n, first)
+  | l :: r =>
+    match parse_salted salt l with
+    | Found _ _ c =>
+      finished_lines salt code r (n + 1) (match first with None => if (c =? code)%Z then Some n else None | Some _ => first end)
+    | _ => finished_lines salt code r n first
+    end
+  end.
+Definition finished (salt : list N) (code : Z) (stream : list N) : N * option N :=
+  finished_lines salt code (split_lines stream) 0 None.
+
+(* execute_all for a shell that ended by itself with status `exit` (no timeout, not killed): skip, outputs, or an error *)
+Inductive sverdict := VSkip (i : N) | VOuts (outs : list (list N * Z)) | VErr.
+Fixpoint first_code (code : Z) (outs : list (list N * Z)) (i : N) : option N :=
+  match outs with [] => None | (_, c) :: r => if (c =? code)%Z then Some i else first_code code r (i + 1) end.
+Definition script_verdict (salt : list N) (skip : Z) (ntests : N) (exit : Z) (stream : list N) : sverdict :=
+  match finished salt skip stream with
+  | (_, Some i) => VSkip i
+  | (fin, None) =>
+    if (exit =? skip)%Z && (fin <? ntests) then VSkip 0 else
+    match split_outputs salt stream with
+    | None => VErr
+    | Some outs =>
+      match first_code skip outs 0 with
+      | Some i => VSkip i
+      | None => if N.of_nat (length outs) =? ntests then VOuts outs else VErr
+      end
+    end
+  end.
+
 (* what bash prints on stdout for the compiled script: every payload followed by `echo "<divider>"`, wherever the
    payload ended (so a payload without final newline shares its last line with the divider) *)
 Definition divider_line (salt : list N) (i : N) (code : Z) : list N :=
